@@ -110,6 +110,9 @@ def main(argv):
     prop, tier = argv[0], (argv[1] if len(argv) > 1 else os.environ.get('VERIF_TIER', 'quick'))
     seed = int(os.environ.get('VERIF_SEED', '0'))
     only = argv[2] if len(argv) > 2 else None
+    if only and not os.environ.get('VERIF_EVIDENCE_DIR'):
+        # a filtered run is a development aid: its partial evidence must not replace the property's evidence file
+        os.environ['VERIF_EVIDENCE_DIR'] = os.path.join(WORK, 'partial_evidence')
     if not os.path.exists(PY):
         subprocess.run([os.path.join(VERIF, 'setup.sh')], check=True)
     sys.path[:0] = [REPO, VERIF]
